@@ -1,13 +1,14 @@
 /-
   Line-protocol replay of M6 (Till).  The harness runs the REAL till.daemon and Till() under the
   deterministic scheduler on a virtual clock (ticks of 1/1024 s, INTERVAL patched to 128 ticks) and
-  records the events visible at lock granularity; thread-local steps of the model (`tau`, the
-  unlocked next_ping read/write, the rebinding of `enabled`) are taken eagerly after each visible
-  step of the same thread, exactly as the implementation runs on to its next yield point.
+  records the events visible at lock granularity and the unlocked read and write of next_ping in the scan
+  (a pre-emption point lies between the two); thread-local steps of the model (`tau`, the rebinding of
+  `enabled`) are taken eagerly after each visible step of the same thread, exactly as the implementation
+  runs on to its next yield point.
     run <id> m6 I=<ticks>
     call <t> till <secs>
     env stop | env tick <d>
-    step <t> enable | loopTest <b> | clock <n> | acq | rel <np> <nt> | sleep <w> | wake | fire <id> | cEnabled <b>
+    step <t> enable | loopTest <b> | clock <n> | acq | rel <np> <nt> | sleep <w> | wake | fire <id> | cEnabled <b> | rPing <v> | wPing <v>
     end done|stuck <t>..
     final fired=<id,id,..> np=<n> now=<n>
 -/
@@ -33,7 +34,7 @@ def labelShow : Label → String
   | .cEnabled b => "cEnabled " ++ showBool b
 
 def labelSilent : Label → Bool
-  | .tau | .rPing _ | .wPing _ | .disable => true
+  | .tau | .disable => true
   | _ => false
 
 structure Sim where
